@@ -6,8 +6,8 @@ import (
 	"encoding/json"
 	"fmt"
 	"io"
-	"net"
 	"math/rand"
+	"net"
 	"runtime"
 	"strconv"
 	"strings"
